@@ -992,7 +992,8 @@ def check_matching_reaches_Tn(ctx, spec, eos, hy, vw, tag="", edge=False):
         return None
     miss = tn / Tn - 1.0
     # type-changing threshold: the shock front about to coincide with the wall (v+ vw ->
-    if abs(vp * vw - float(eos.csqHighT(Tp))) < FRONT_AT_WALL:
+    if abs(vp * vw - float(eos.csqHighT(Tp))) < (2.5 * FRONT_AT_WALL if tight(hy) else
+                                                  FRONT_AT_WALL):
         # default pass 2e-4; tight pass 5e-6: the shooting function steepens there (slope up to
         # ~1e3 per relative v+, measured 6e-7 at rtol 1e-9), it is still 40x below the default
         tolT = max(tolT, TOL_TN_FRONT_AT_WALL_TIGHT if tight(hy) else TOL_TN_FRONT_AT_WALL)
